@@ -91,7 +91,14 @@ func (t Thing) TakesSlice(s []int) int                          { return len(s) 
 func (t Thing) TakesUint(u uint64) uint64                       { return u }
 func (t Thing) TakesInt8(i int8) int8                           { return i }
 func (t Thing) TakesUint8(u uint8) uint8                        { return u }
-func (t Thing) hiddenMethod() string                            { return "h" }
+
+// accessor-style names: methods like any other - "Secret" names no attribute of a Thing, "GetSecret" does
+func (t Thing) GetSecret() string { return "the secret" }
+func (t Thing) IsOpen() bool      { return true }
+func (t *Thing) HasKids() bool    { return true }
+func (t Thing) GetCount() int     { return -1 }
+
+func (t Thing) hiddenMethod() string { return "h" }
 
 // NewThing builds a populated Thing.
 func NewThing() Thing {
@@ -155,7 +162,7 @@ func Scalars() []Named {
 		N("str-0", "0"), N("str-1", "1"), N("str-num", "12.5"), N("str--3", "-3"), N("str-1e3", "1e3"), N("str-sp", " 7 "), N("str-hex", "0x10"), N("str-inf", "Inf"), N("str-nan", "NaN"),
 		N("str-html", "<b>&\"'</b>"),
 		// standard-library types at the edge of "numbers and strings"
-		N("json.Number int", json.Number("12")), N("json.Number float", json.Number("2.5e1")), N("json.Number junk", json.Number("x")), N("[]byte", []byte("bytes")), N("rune", 'x'), N("byte", byte('y')),
+		N("json.Number int", json.Number("12")), N("json.Number float", json.Number("2.5e1")), N("json.Number junk", json.Number("x")), N("[]byte", []byte("bytes")), N("[]byte utf-8", []byte("h\u00e9llo \u4e2d\u6587 \U0001F600")), N("[]uint8", []uint8{0xe2, 0x82, 0xac, 'x'}), N("[]rune", []rune("h\u00e9")), N("[4]byte", [4]byte{0xf0, 0x9f, 0x98, 0x80}), N("rune", 'x'), N("byte", byte('y')),
 		N("error", errors.New("an error")), N("time.Duration", 90*time.Second), N("time.Month", time.March), N("time.Time", time.Date(2021, 3, 4, 5, 6, 7, 0, time.UTC)), N("time.Time zero", time.Time{}),
 		N("*big.Int", big.NewInt(42)), N("big.Float", *big.NewFloat(1.5)), N("url.URL", url.URL{Scheme: "http", Host: "h"}), N("net.IP", net.IP{127, 0, 0, 1}), N("os.FileMode", os.FileMode(0o644)),
 		N("nil *time.Time", (*time.Time)(nil)), N("*time.Time", func() *time.Time { t := time.Date(2020, 2, 29, 23, 59, 59, 0, time.UTC); return &t }()), N("nil *big.Int", (*big.Int)(nil)), N("nil *big.Float", (*big.Float)(nil)), N("nil *url.URL", (*url.URL)(nil)),
@@ -240,7 +247,7 @@ func Keys() []Named {
 	return []Named{
 		N("'a'", "a"), N("'k'", "k"), N("'1'", "1"), N("'0'", "0"), N("'Name'", "Name"), N("'hidden'", "hidden"), N("'ValueMethod'", "ValueMethod"), N("'PtrMethod'", "PtrMethod"),
 		N("'Add'", "Add"), N("'Variadic'", "Variadic"), N("'Join'", "Join"), N("'Fmt'", "Fmt"), N("'Two'", "Two"), N("'Nothing'", "Nothing"), N("'NilFunc'", "NilFunc"), N("'Fn'", "Fn"), N("'TakesPtr'", "TakesPtr"), N("'TakesUint'", "TakesUint"), N("'TakesInt8'", "TakesInt8"), N("'TakesUint8'", "TakesUint8"),
-		N("'TakesIface'", "TakesIface"), N("'TakesFloat'", "TakesFloat"), N("'TakesSlice'", "TakesSlice"), N("'Concat'", "Concat"), N("'hiddenMethod'", "hiddenMethod"), N("'missing'", "missing"), N("''", ""),
+		N("'TakesIface'", "TakesIface"), N("'TakesFloat'", "TakesFloat"), N("'TakesSlice'", "TakesSlice"), N("'Concat'", "Concat"), N("'hiddenMethod'", "hiddenMethod"), N("'missing'", "missing"), N("''", ""), N("'Secret'", "Secret"), N("'secret'", "secret"), N("'Open'", "Open"), N("'Kids'", "Kids"), N("'GetSecret'", "GetSecret"), N("'IsOpen'", "IsOpen"), N("'HasKids'", "HasKids"), N("'Get'", "Get"), N("'count'", "count"),
 		N("'Items'", "Items"), N("'Inner'", "Inner"), N("'Any'", "Any"), N("'Attrs'", "Attrs"), N("'ID'", "ID"), N("'note'", "note"), N("'innerLower'", "innerLower"), N("'A'", "A"), N("'B'", "B"), N("'C'", "C"), N("'N'", "N"), N("'Extra'", "Extra"), N("'Hello'", "Hello"), N("'PtrHello'", "PtrHello"), N("'String'", "String"), N("'Number'", "Number"), N("'Boolean'", "Boolean"), N("'Tag'", "Tag"), N("'PP'", "PP"), N("'Next'", "Next"), N("KeyStr('a')", KeyStr("a")), N("KeyStringer('a')", KeyStringer("a")), N("OuterIface{slice}", OuterIface{Any: []int{1}}), N("KeyInt(1)", KeyInt(1)), N("'true'", "true"),
 		// strings that strconv.ParseFloat accepts but that are no usable index
 		N("'NaN'", "NaN"), N("'nan'", "nan"), N("'Inf'", "Inf"), N("'-Inf'", "-Inf"), N("'+Infinity'", "+Infinity"), N("'1e400'", "1e400"), N("'0x1'", "0x1"), N("'0x1p-2'", "0x1p-2"),
@@ -285,6 +292,21 @@ type (
 )
 
 func (KindSlice) String() string { return KindText }
+
+// Changing is a Stringer that says something harmless the first time it is asked and Text from then on (a
+// message bag emptied on read, a lazily loaded label ...): whoever asks twice prints the second answer.
+type Changing struct {
+	Text  string
+	Calls int
+}
+
+func (c *Changing) String() string {
+	c.Calls++
+	if c.Calls == 1 {
+		return "first"
+	}
+	return c.Text
+}
 func (KindMap) String() string   { return KindText }
 func (KindInt) String() string   { return KindText }
 func (KindBool) String() string  { return KindText }
@@ -401,3 +423,32 @@ type OuterLowerPtr struct {
 func NewOuterLower() (OuterLower, OuterLowerPtr, OuterLowerPtr) {
 	return OuterLower{innerLower{7, "n"}, "ol"}, OuterLowerPtr{&innerLower{8, "n"}, "olp"}, OuterLowerPtr{nil, "olnil"}
 }
+
+// Defined numeric types that have methods fmt knows about - but none of Stringer, Number or Boolean: they coerce
+// like the numbers they are (compare syscall.Errno, an integer with an Error method).
+type (
+	ErrInt  int
+	ErrU8   uint8
+	ErrF64  float64
+	FmtInt  int64
+	GoStrI  int32
+	ErrText string
+)
+
+func (ErrInt) Error() string                 { return "status: not found" }
+func (ErrU8) Error() string                  { return "errno" }
+func (ErrF64) Error() string                 { return "not a number at all" }
+func (FmtInt) Format(f fmt.State, verb rune) { f.Write([]byte("formatted!")) }
+func (GoStrI) GoString() string              { return "gostring!" }
+func (ErrText) Error() string                { return "an error text" }
+
+// OpinionatedSafe is a user-written SafeValue that also implements Stringer, Number and Boolean - with answers that
+// have nothing to do with what it wraps. A safe wrapper coerces like the value inside.
+type OpinionatedSafe struct{ Inner stick.Value }
+
+func (o OpinionatedSafe) Value() stick.Value { return o.Inner }
+func (OpinionatedSafe) IsSafe(string) bool   { return true }
+func (OpinionatedSafe) SafeFor() []string    { return []string{"html"} }
+func (OpinionatedSafe) String() string       { return "the wrapper's own text" }
+func (OpinionatedSafe) Number() float64      { return 987654 }
+func (o OpinionatedSafe) Boolean() bool      { return !stick.CoerceBool(o.Inner) }
